@@ -176,8 +176,10 @@ var c02Values = map[string]any{
 	"crlf": "l1\r\nl2", "cr": "m1\rm2", "tabnl": "t\tu\nv",
 	// a value that looks like template source stays a value
 	"must": "a {{ one }} b", "musttag": "<code>Hello {{ v }}!</code>",
+	// spelled like the attribute it lands in
+	"attrname": "title",
 }
-var c02ValueNames = []string{"word", "amp", "lt", "tag", "dq", "sq", "ent", "lead", "trail", "nbsp", "nilv", "int", "neg", "true", "float", "entlt", "semi", "crlf", "cr", "tabnl", "f32", "f32b", "big", "small", "u8", "i64", "must", "musttag"}
+var c02ValueNames = []string{"word", "amp", "lt", "tag", "dq", "sq", "ent", "lead", "trail", "nbsp", "nilv", "int", "neg", "true", "float", "entlt", "semi", "crlf", "cr", "tabnl", "f32", "f32b", "big", "small", "u8", "i64", "must", "musttag", "attrname"}
 
 func (c *c02Case) Run(ctx *core.Ctx) {
 	switch c.Part {
@@ -374,6 +376,16 @@ func c02Enumerate(tier string, emit func(core.Case)) {
 	// (i) structure sweep
 	for n := 1; n <= maxNodes; n++ {
 		c02Forests(n, 3, labels, func(f []c02Node) { emit(&c02Case{Part: "structure", Src: srcOf(f)}) })
+	}
+	// (ii-a) values that are spelled like their attribute's name, and other values a serialiser may
+	// take for "no value": the name in another case, true / false, the empty string
+	for _, h := range []string{`<input%s>`, `<option%s>x</option>`, `<label%s>x</label>`, `<div><p%s>x</p></div>`} {
+		for _, n := range []string{"checked", "selected", "disabled", "name", "value", "for", "class", "title", "id", "data-x", "hidden"} {
+			for _, v := range []string{n, strings.ToUpper(n), n + " ", "true", "false", "", "on", "=" + n} {
+				emit(&c02Case{Part: "attr", Src: fmt.Sprintf(h, fmt.Sprintf(` %s="%s"`, n, v))})
+				emit(&c02Case{Part: "attr", Src: fmt.Sprintf(h, fmt.Sprintf(` %s="%s" data-k="k"`, n, v))})
+			}
+		}
 	}
 	// (ii) attribute sweep
 	hosts := []string{`<div%s>x</div>`, `<span%s>x</span>`, `<a%s>x</a>`, `<img%s>`, `<input%s>`, `<table><tr><td%s>x</td></tr></table>`, `<textarea%s>x</textarea>`, `<div><p%s>x</p><em>y</em></div>`, `t<b%s>x</b>u`}
